@@ -153,9 +153,37 @@ static void raw_case (long idx, vf_rng *r)
     free (a); free (b);
 }
 
+/* two requests in a row that differ only in what their (solid-classified) source is: a plain solid colour first, then a 1x1 repeating image
+ * that carries an alpha map or accessors.  Whatever the first leaves behind in the per-thread fast-path cache must not serve the second. */
+static void pair_case (long idx, vf_rng *r)
+{
+    static const pixman_op_t ops[] = { PIXMAN_OP_OVER, PIXMAN_OP_OVER, PIXMAN_OP_ADD, PIXMAN_OP_SRC, PIXMAN_OP_IN };
+    static const pixman_format_code_t dfs[] = { PIXMAN_a8r8g8b8, PIXMAN_x8r8g8b8, PIXMAN_r5g6b5, PIXMAN_a8b8g8r8, PIXMAN_a8 };
+    pixman_op_t op = VF_PICK (r, ops); pixman_format_code_t df = VF_PICK (r, dfs); int with_mask = vf_chance (r, 2, 3), w = (int)vf_range (r, 1, 40), h = (int)vf_range (r, 1, 4);
+    uint64_t pixseed = vf_next (r), mseed = vf_next (r); uint64_t d2 = 0; char label[80]; static char desc[1500];
+    for (int pass = 0; pass < 2; pass++) {
+        rq_request q; memset (&q, 0, sizeof q); q.op = op; q.w = w; q.h = h; q.has_mask = with_mask;
+        q.dst.kind = RQ_BITS; q.dst.fmt = df; q.dst.w = w; q.dst.h = h; q.dst.pixseed = pixseed; q.dst.pixstyle = 1;
+        if (with_mask) { q.mask.kind = RQ_BITS; q.mask.fmt = PIXMAN_a8; q.mask.w = w; q.mask.h = h; q.mask.pixseed = mseed; q.mask.filter = PIXMAN_FILTER_NEAREST; pixman_transform_init_identity (&q.mask.tr); }
+        pixman_transform_init_identity (&q.src.tr); q.src.filter = PIXMAN_FILTER_NEAREST;
+        if (pass == 0) { q.src.kind = RQ_SOLID; q.src.solid.alpha = 0xc000; q.src.solid.red = 0x8000; q.src.solid.green = 0x2000; q.src.solid.blue = 0xb000; }
+        else { q.src.kind = RQ_BITS; q.src.fmt = PIXMAN_a8r8g8b8; q.src.w = q.src.h = 1; q.src.repeat = PIXMAN_REPEAT_NORMAL; q.src.pixseed = pixseed ^ 5; q.src.pixstyle = 0;
+               if (idx % 2) { q.src.alpha_map = 1; q.src.am_x = q.src.am_y = 0; q.src.am_w = q.src.am_h = 1; } else q.src.accessors = 1; }
+        vf_rng br = *r; if (!rq_build (&q, &br)) return;
+        rq_describe (&q, desc, sizeof desc); vf_case_desc ("[second of a pair; the first had a plain solid source] %s chain='%s'", desc, vf_chain_env ()); vf_inflight ("pair pass %d: %s", pass, desc);
+        rq_run (&q);
+        if (pass == 1) d2 = rq_digest (&q);
+        rq_free (&q);
+    }
+    snprintf (label, sizeof label, "solid-then-1x1-%s/op%d/%s", idx % 2 ? "alphamap" : "accessors", (int)op, rp_name (df));
+    extern void vf_digest_line (long idx, uint64_t digest, const char *label);
+    vf_digest_line (idx, d2, label); vf_count ("evaluations", 1); vf_count ("cache_priming_pairs", 1); vf_cell ("cells", vf_mix (vf_mix (91, op), (uint64_t)df * 4 + with_mask * 2 + idx % 2));
+}
+
 static void chain_case (long idx, vf_rng *r)
 {
     if (!hostile && idx % 25 == 24) { raw_case (idx, r); return; }
+    if (!hostile && idx % 25 == 12) { pair_case (idx, r); return; }
     rq_request q; memset (&q, 0, sizeof q);
     int directed = n_recipes && (idx % 3) != 2;
     const recipe_t *rc = NULL;
